@@ -14,7 +14,7 @@ validating and sorting, `WritePayloadLength`); `decode` follows `decodeBasedOnTy
 `ReadSequenceOfObjects` re-slicing per item, `ReadPayloadLength`, `CheckTypePrefix`,
 `GetObjectType`).  Outcomes are `ok | err | panic` so that the places where the Go code panics
 stay visible.  The model is the code *after* the `fix:` commits 8805e2e (arrays), 2f92ee4 (nil
-embedded pointer), 0c80050 (GetByValue), 41a09a2 (uint64 length prefix).
+embedded pointer), 0c80050 (GetByValue), 41a09a2 (uint64 length prefix), 262f59b (TimeToUint64).
 
 Not modelled: reflection itself, user supplied `Serializable`/`Deserializable` implementations and
 syntactic validators (parameters of the API), the text of errors (all errors are `err`).  Because
@@ -312,13 +312,13 @@ def maxInt64 : Nat := 2 ^ 63 - 1
 /-- `serializer.MaxNanoTimestampInt64Seconds`. -/
 def maxSec : Nat := maxInt64 / 1000000000
 
-/-- `serializer.TimeToUint64` on a time given as integer nanoseconds since the epoch: above
-`maxSec` seconds saturate to `MaxInt64`; negative seconds or a negative (wrapped) `UnixNano` give 0 —
-which includes the stamps in `(MaxInt64, (maxSec+1)·10⁹)` whose `UnixNano` wraps around. -/
+/-- `serializer.TimeToUint64` (after fix 262f59b) on a time given as integer nanoseconds since the
+epoch: times before the epoch are written as 0, times whose nanoseconds do not fit an int64 as
+`MaxInt64`.  (`unixSeconds > maxSec`, or `unixSeconds = maxSec` with a wrapped negative `UnixNano`,
+is exactly `x > MaxInt64`.) -/
 def timeToU64 (x : Int) : Nat :=
   if x < 0 then 0
-  else if x.toNat / 1000000000 > maxSec then maxInt64
-  else if x.toNat > maxInt64 then 0
+  else if x.toNat > maxInt64 then maxInt64
   else x.toNat
 
 /-- `ReadTime`: saturate by the seconds test, then `time.Unix(0, int64(ns))`. -/
